@@ -69,6 +69,11 @@ namespace hist
         {
             return construct_with_upstream<Up, T>(st, this->ctx_, owner, block_size_, node_size_);
         }
+        T* fresh_other(void* st, int owner, int variant)
+        {
+            size_t ns = (variant / 2) % 2 && node_size_ > 1 ? node_size_ / 2 : node_size_;
+            return construct_with_upstream<Up, T>(st, this->ctx_, owner, block_size_, ns);
+        }
         void use_a_little(T& t)
         {
             (void)t.allocate_node();
@@ -206,6 +211,7 @@ namespace hist
             // documented: max_node_size smaller than block_size / number of pools; the block must
             // also hold the bucket array. Stay comfortably inside that contract.
             size_t mult   = 2 + c.block_class % 7; // each bucket's default share: 2..8 top nodes
+            mult_         = mult;
             size_t wanted = arena_off + nb * (sizeof(list_t) + 16) + 64
                             + nb * (mult * top + 32) + (c.block_extra % 3 ? c.block_extra % 128 : 0);
             if (PoolType::value == false) // small lists need a chunk header per insert
@@ -217,6 +223,17 @@ namespace hist
         T* fresh(void* st, int owner)
         {
             return construct_with_upstream<Up, T>(st, this->ctx_, owner, block_size_, max_node_);
+        }
+        T* fresh_other(void* st, int owner, int variant)
+        {
+            // a different number of buckets than the source (smaller; larger only where the block
+            // was sized generously enough for the documented block_size / pools relation)
+            size_t mx = max_node_;
+            if ((variant / 2) % 3 == 1 && max_node_ / 2 >= min_elem)
+                mx = max_node_ / 2;
+            else if ((variant / 2) % 3 == 2 && is_log && mult_ >= 6 && max_node_ * 2 <= 512)
+                mx = max_node_ * 2;
+            return construct_with_upstream<Up, T>(st, this->ctx_, owner, block_size_, mx);
         }
         void use_a_little(T& t)
         {
@@ -302,7 +319,7 @@ namespace hist
         }
 
     private:
-        size_t max_node_, block_size_;
+        size_t max_node_, block_size_, mult_ = 2;
     };
 
 } // namespace hist
